@@ -46,6 +46,8 @@ type concDB struct {
 
 var concByDir sync.Map // dir -> *concDB
 
+var concMergeRuns atomic.Bool // a Merge goroutine is part of this run
+
 func concHook(op, path string, off int64, data []byte) error {
 	if op == "lock-acq" {
 		if v, ok := concByDir.Load(path); ok {
@@ -64,7 +66,9 @@ func concHook(op, path string, off int64, data []byte) error {
 	}
 	// Merge is between two segments here (one just rewritten, about to be unlinked): let the other
 	// goroutines run for a moment in exactly that state
-	if op == "remove" || op == "create" || op == "truncate" {
+	// (only when a Merge goroutine runs: in sparse mode every record read opens its data file, and a sleep
+	// per open made a run crawl past the time limit — a false deadlock alarm of 2026-09-22)
+	if concMergeRuns.Load() && (op == "remove" || op == "create" || op == "truncate") {
 		if rand.Intn(2) == 0 {
 			time.Sleep(300 * time.Microsecond)
 		}
@@ -80,10 +84,12 @@ func runConc(args []string) {
 	txs := fs.Int("txs", 40, "transactions per goroutine")
 	ndbs := fs.Int("dbs", 1, "databases driven at once")
 	merge := fs.Bool("merge", false, "a goroutine calls Merge repeatedly")
+	defer func() { concMergeRuns.Store(false) }()
 	backup := fs.Bool("backup", false, "a goroutine calls Backup a few times")
 	mode := fs.Int("mode", 0, "EntryIdxMode")
 	out := fs.String("out", "-", "output trace")
 	fs.Parse(args)
+	concMergeRuns.Store(*merge)
 	var w *bufio.Writer
 	if *out == "-" {
 		w = bufio.NewWriter(os.Stdout)
